@@ -45,7 +45,8 @@ def match_finding(prop, clause, site=None, detail=None):
             continue
         w = e.get("when")
         if w:
-            d = detail or {}
+            d = dict((detail or {}).get("event") or {})
+            d.update({k: v for k, v in (detail or {}).items() if k != "event"})
             okw = True
             for k, allowed in w.items():
                 if d.get(k) not in allowed:
